@@ -138,7 +138,11 @@ func runTwin(c TwinCase) (res common.Result) {
 				a = append(a, l)
 				b = append(b, refmodel.CloneLog(l))
 			}
-			e1 := v.StoreLogs(a)
+			e1, stuck := guarded("verifier.(*LogStore).StoreLogs", func() error { return v.StoreLogs(a) })
+			if stuck != "" {
+				res.Fail = common.Failf("storelogs-blocked", "step %d: StoreLogs through the verifier never returns (nobody holds the report callback):\n%s", i, stuck)
+				return
+			}
 			if foreign {
 				cls["foreign-checkpoint"] = true
 				if e1 == nil {
@@ -187,7 +191,11 @@ func runTwin(c TwinCase) (res common.Result) {
 			if c.Inner == "inmem" && op.Rel == "middle" {
 				continue // InmemStore accepts middle deletions and then misreports bounds; not the middleware's concern
 			}
-			e1 := v.DeleteRange(min, max)
+			e1, stuck := guarded("verifier.(*LogStore).DeleteRange", func() error { return v.DeleteRange(min, max) })
+			if stuck != "" {
+				res.Fail = common.Failf("deleterange-blocked", "step %d: DeleteRange(%d,%d) through the verifier never returns:\n%s", i, min, max, stuck)
+				return
+			}
 			e2 := in2.DeleteRange(min, max)
 			if !sameErr(e1, e2) {
 				res.Fail = common.Failf("deleterange-result-differs", "step %d DeleteRange(%d,%d): via verifier %v, direct %v", i, min, max, e1, e2)
@@ -408,7 +416,13 @@ func runBlock(c BlockCase) (res common.Result) {
 					return
 				}
 			}
-			if err := v.DeleteRange(min, next-1); err != nil {
+			derr, stuck := guarded("verifier.(*LogStore).DeleteRange", func() error { return v.DeleteRange(min, next-1) })
+			if stuck != "" {
+				leakOnPurpose = true
+				res.Fail = common.Failf("deleterange-blocked", "step %d: DeleteRange(%d,%d) through the verifier never returns:\n%s", i, min, next-1, stuck)
+				return
+			}
+			if err := derr; err != nil {
 				res.Fail = common.Failf("deleterange-err", "step %d: DeleteRange(%d,%d) through the verifier = %v", i, min, next-1, err)
 				close(tokens)
 				return
@@ -546,4 +560,16 @@ func firstGoroutineWith(st, needle string) string {
 
 func TestC18Blocked(t *testing.T) {
 	common.Run(t, "C18", "C18Blocked", genBlock, runBlock)
+}
+
+// guarded runs one middleware call on its own goroutine. If the call is parked for good inside
+// the named frame (stack evidence in two consecutive dumps, see common.WaitParked) it returns
+// that stack; a call that is merely slow is waited for.
+func guarded(frame string, fn func() error) (err error, stuck string) {
+	done := make(chan struct{})
+	go func() { err = fn(); close(done) }()
+	if parked, st := common.WaitParked(done, frame, 2*time.Second, 5*time.Minute); parked {
+		return nil, st
+	}
+	return err, ""
 }
